@@ -141,13 +141,13 @@ def parseDigits (s : String) : List Nat := s.toList.map (fun c => c.toNat - '0'.
 @[specialize] def runDiffAt (op : String) (tok : List String) (x : Array α) : Except String (Array α) := do
   match tok with
   | [fam, grp, kS, mode, idxS, _cm] =>
-    let K := (kS.drop 1).toNat!
+    let K := (kS.drop 1).toString.toNat!
     -- the family's argument kinds do not depend on the parameters
     let some F0 := mkFamily (α := α) fam grp #[] | .error "unknown-family"
     let some (args, params) := splitArgs F0.kinds x | .error "decode-args"
     let some F := mkFamily fam grp params | .error "unknown-family"
     let slotsAll := F.kinds.mapIdx (fun i t => mkSlot (α := α) t i)
-    let idxBody := idxS.drop 1
+    let idxBody := (idxS.drop 1).toString
     let subset := idxBody != "all"
     let idx := if subset then parseDigits idxBody else List.range F.kinds.length
     let analytic := K ≥ 1 && !subset && (mode == "ana" || mode == "def")
